@@ -739,6 +739,16 @@ func evaluate(r *ev.Run, a *artefact, mu mutation, eps []entry) {
 			return d
 		}
 		sigBase := fmt.Sprintf("ep=%s artefact=%s mutation=%s", ep.name, a.kind, mu.class)
+		ext := extensionClass(mu.class)
+		if ext && !ep.column && !timedOut && pan == "" {
+			r.SetAdd("extension_matrix", a.kind+"|"+classFamily(mu.class)+"|"+ep.name)
+			if a.search {
+				r.Count("searchable_extension_judged_at_call_entry_points", 1)
+				if err != nil {
+					r.Count("searchable_extension_rejected", 1)
+				}
+			}
+		}
 		switch {
 		case timedOut:
 			r.Inconclusive(fmt.Sprintf("reveal call did not return within %s: %s mutated=%s", watchdog, sigBase, ev.Hex(mu.m)))
@@ -774,7 +784,16 @@ func evaluate(r *ev.Run, a *artefact, mu mutation, eps []entry) {
 			continue
 		}
 		// column path
+		if ext {
+			r.SetAdd("extension_matrix", a.kind+"|"+classFamily(mu.class)+"|"+ep.name)
+		}
+		if ext && searchColumn(ep) && a.search {
+			r.Count("searchable_extension_judged_in_search_column", 1)
+		}
 		if bytes.Equal(out, mu.m) {
+			if ext && searchColumn(ep) && a.search {
+				r.Count("searchable_extension_column_unchanged", 1)
+			}
 			r.Count("outcome:column-unchanged", 1)
 			r.Distinct(fmt.Sprintf("%s|%s|%s|unchanged", a.kind, mu.class, ep.name))
 			r.SampleN("column-unchanged:"+a.kind, 1, map[string]interface{}{"artefact": a.kind, "len": a.L, "mutation": mu.class, "detail": mu.desc, "entry_point": ep.name, "outcome": "handed back unchanged", "mutated": ev.Hex(mu.m)})
@@ -782,6 +801,22 @@ func evaluate(r *ev.Run, a *artefact, mu mutation, eps []entry) {
 		}
 		if mu.hashSwapped {
 			r.Violation("value with a swapped search hash not handed back unchanged: "+sigBase, detail(map[string]interface{}{"got": ev.FullHex(out)}))
+			continue
+		}
+		if searchColumn(ep) && a.search && carriesHash(mu.m) {
+			// searchable column, searchable stored form, the value still begins with a well-formed search hash: unchanged (handled above) or
+			// exactly the plaintext; an envelope revealed in place next to the hash / other bytes was never checked against the hash
+			if in(mu.allow, out) {
+				r.Count("outcome:column-search-revealed-exactly", 1)
+				noteBenign(r, mu.class, ep.name)
+				r.Distinct(fmt.Sprintf("%s|%s|%s|revealed-exactly", a.kind, mu.class, ep.name))
+				continue
+			}
+			what := "something else"
+			if derivable(out, mu.m, mu.allow, 2) {
+				what = "an envelope revealed in place, the hash and the other bytes kept"
+			}
+			r.Violation("searchable column: modified value that carries a search hash neither handed back unchanged nor revealed to exactly the plaintext ("+what+"): "+sigBase, detail(map[string]interface{}{"got": ev.FullHex(out)}))
 			continue
 		}
 		if derivable(out, mu.m, mu.allow, 2) {
@@ -823,8 +858,9 @@ var ProxyLayer func(r *ev.Run)
 
 func Run(r *ev.Run) {
 	r.Rule = "artefacts = {raw AcraStruct, raw AcraBlock, container(AcraStruct), container(AcraBlock), search-hash‖each} × plaintext lengths {1,5,33,200} (v1 keystore for lengths 1,33; v2 for 5,200; owner has one rotated key); " +
-		"modifications = single bit flips, truncations, appended suffixes (1 byte, 8 bytes, second envelope), every length field (AcraStruct data length, AcraBlock rest/key length, container total length, Secure Message length, Secure Cell iv/tag/msg lengths) forced to {0,1,2,len-1,len+1,0x7fff,0xffff,2^31-1,2^31,2^32-1,2^63-1,2^63,2^64-1}, type/backend/hash-function/envelope-id bytes to other values, AcraBlock key id sweep, part splices (header/key block/payload) between two values of the same and of another client, swapped search hashes; " +
+		"modifications = single bit flips, truncations, appended suffixes (1 byte, 8 bytes, second envelope), every length field (AcraStruct data length, AcraBlock rest/key length, container total length, Secure Message length, Secure Cell iv/tag/msg lengths) forced to {0,1,2,len-1,len+1,0x7fff,0xffff,2^31-1,2^31,2^32-1,2^63-1,2^63,2^64-1}, type/backend/hash-function/envelope-id bytes to other values, AcraBlock key id sweep, part splices (header/key block/payload) between two values of the same and of another client, swapped search hashes, one byte inserted in front of every field, junk / envelope tag bytes / a search hash / a second envelope inserted between hash and envelope and between container header and envelope, bytes and a search hash prepended, a swapped search hash combined with each suffix / insertion (both tiers in full); " +
 		"thorough = the complete enumeration (all bits, all truncation lengths, all 256 byte values, all 65 536 key ids); quick = fixed per-artefact quotas drawn from VERIF_SEED (all length-field edits for two of the four lengths, ~60 bits, ~40 truncation lengths, 24 byte values, 512 key ids); " +
+		"column entry points: a fresh subscriber chain per value, and the chain of one connection that has already served the intact value (column-session); wire layer: the extended searchable values placed in a database and read through the PostgreSQL and the MySQL proxy; " +
 		"one evaluation = one modified value at one reveal entry point; distinct = (artefact kind, modification class incl. the field hit, entry point, outcome class) tuples"
 	r.Assumptions = []string{
 		"crypto library replaced by the pure-Go gothemis stand-in (AES-256-GCM Secure Cell with strict header parsing, ECDH P-256 Secure Message); authentication strength is delegated to it, as the property delegates it to Themis",
@@ -909,7 +945,7 @@ func Run(r *ev.Run) {
 
 	// controls: every unmodified artefact must reveal at every admitting entry point (otherwise "rejected" means nothing)
 	for _, s := range slots {
-		for _, ep := range entries(s.a.fam, s.a.search) {
+		for _, ep := range append(entries(s.a.fam, s.a.search), sessionEntries(s.a)...) {
 			out, err, pan, _, _ := call(ep, s.a.env, s.a.owner, s.a.y)
 			want := s.a.x
 			ok := pan == "" && err == nil && bytes.Equal(out, want)
@@ -940,7 +976,7 @@ func Run(r *ev.Run) {
 	}
 	for si, s := range slots {
 		a := s.a
-		eps := entries(a.fam, a.search)
+		eps := append(entries(a.fam, a.search), sessionEntries(a)...)
 		mrng := gen.New(r.Seed, fmt.Sprintf("c03-mut-%d", si))
 		li := 0
 		for i, L := range Lengths {
@@ -958,6 +994,21 @@ func Run(r *ev.Run) {
 			}
 			n++
 			r.Count("modifications:"+mu.class[:strings.IndexAny(mu.class+":", ":@=(")], 1)
+			if a.search {
+				r.Count("modifications_of_searchable_values:"+classFamily(mu.class), 1)
+			}
+			ch <- job{a, mu, eps}
+		})
+		generateExtensions(r, a, s.d, mrng, func(mu mutation) {
+			if bytes.Equal(mu.m, a.y) {
+				r.Count("noop_modifications_skipped", 1)
+				return
+			}
+			fam := classFamily(mu.class)
+			r.Count("modifications:"+fam, 1)
+			if a.search {
+				r.Count("modifications_of_searchable_values:"+fam, 1)
+			}
 			ch <- job{a, mu, eps}
 		})
 		if a.fam == "ab" && a.L == 5 {
@@ -987,6 +1038,18 @@ func Run(r *ev.Run) {
 	r.RequireAtLeast("modifications:splice", 100)
 	r.RequireAtLeast("modifications:swaphash", 40)
 	r.RequireAtLeast("modifications:keyid", int64(r.Pick(500, 65000)))
+	// extension / insertion workload (extension.go)
+	r.RequireAtLeast("modifications:insert", 500)
+	r.RequireAtLeast("modifications:insert@hash|envelope", 16*6)
+	r.RequireAtLeast("modifications:prepend", 80)
+	r.RequireAtLeast("modifications:swaphash+append", 150) // 192 unless one-byte plaintexts collide (skipped as no-ops)
+	r.RequireAtLeast("modifications:swaphash+insert", 110) // 144 unless one-byte plaintexts collide
+	r.RequireAtLeast("modifications_of_searchable_values:append", 16*7)
+	r.RequireAtLeast("searchable_extension_judged_in_search_column", 1500)
+	r.RequireAtLeast("searchable_extension_judged_at_call_entry_points", 3000)
+	r.RequireAtLeast("control_revealed:column-session:search_as", 16)
+	r.RequireAtLeast("control_revealed:column-session:search_ab", 16)
+	r.RequireSetAtLeast("extension_matrix", 280)
 	if ProxyLayer != nil {
 		ProxyLayer(r)
 	}
